@@ -235,7 +235,7 @@ PROPS = {
                      "LC_InOut_Graph over LC_Linear_Graph is built for void and uint32 edge data only"],
     ),
     "C12": dict(
-        variants={"native": ["galois_shmem", "graph-convert"], "fuzz": ["galois_shmem"]},
+        variants={"native": ["galois_shmem", "graph-convert", "graph-convert-huge"], "fuzz": ["galois_shmem"]},
         units=[dict(type="rc", harness="c12a", quick=24000, thorough=360000, workers=8),
                dict(type="fuzz", harness="c12afz", quick=6000, thorough=90000, workers=8, max_len=400),
                dict(type="hyp", harness="py:c12b", quick=2400, thorough=36000)],
